@@ -9,11 +9,13 @@ Open Scope Z_scope.
 (** error class 1 = TransportError{PROTOCOL_VIOLATION, "received ACK for an unsent packet"} *)
 Theorem ack_unsent st orc l now delay rs s :
   sPanic st = 0 -> op_valid st (OAck l now delay rs) = true -> get_space st l = Some s ->
-  ack_largest rs > spLargestSent s ->
+  ack_largest rs > spLargestSent s \/ (l = sph_EncInitial /\ ack_lowest rs < sIPN st) ->
   step st (OAck l now delay rs, orc) = (st, 1).
 Proof.
   intros Hp Hv Hs Hgt. unfold step. rewrite Hp, Hv. cbn [Z.eqb negb orb]. unfold receivedAck. rewrite Hs.
-  destruct (Z.gtb_spec (ack_largest rs) (spLargestSent s)); [reflexivity|lia].
+  destruct Hgt as [Hgt|[-> Hlt]].
+  - destruct (Z.gtb_spec (ack_largest rs) (spLargestSent s)); [reflexivity|lia].
+  - rewrite Z.eqb_refl. destruct (Z.ltb_spec (ack_lowest rs) (sIPN st)); [|lia]. rewrite orb_true_r. reflexivity.
 Qed.
 
 (** error class 2 = TransportError{PROTOCOL_VIOLATION, "received an ACK for skipped packet number"}:
@@ -40,9 +42,67 @@ Proof.
   exists st_a, 2. auto 10.
 Qed.
 
-(** ... but only the last [maxSkippedPackets] skipped numbers are remembered: an older skipped number
-    can be acknowledged without error.  Witness: handshake confirmed, one 1-RTT packet, five PTO
-    expiries (each skips a number: 1..5), one more packet (6), ACK {6, 1}. *)
+(** ** which skipped numbers are remembered (repaired sentPacketHistory.SkippedPacket) *)
+Lemma gc_skipped_keeps sk empty first p :
+  In p sk -> In p (gc_skipped sk empty first) \/ empty = true \/ p < first.
+Proof.
+  induction sk as [|q r IH]; intros Hin; [destruct Hin|]. cbn [gc_skipped].
+  destruct ((zlen (q :: r) >=? sph_maxSkippedPackets) && (empty || (q <? first))) eqn:Ec; [|left; exact Hin].
+  apply andb_prop in Ec as [_ Ec]. destruct Hin as [->|Hin]; [|apply IH; exact Hin].
+  right. apply orb_prop in Ec as [Ec|Ec]; [left; exact Ec|right; apply Z.ltb_lt; exact Ec].
+Qed.
+
+Lemma gc_skipped_sub sk empty first p : In p (gc_skipped sk empty first) -> In p sk.
+Proof.
+  induction sk as [|q r IH]; cbn [gc_skipped]; [auto|].
+  destruct ((zlen (q :: r) >=? sph_maxSkippedPackets) && (empty || (q <? first))); [intros H; right; apply IH; exact H|auto].
+Qed.
+
+(* at least the last maxSkippedPackets-1 older numbers (plus the new one) survive a collection *)
+Lemma gc_skipped_len sk empty first :
+  zlen (gc_skipped sk empty first) >= Z.min (zlen sk) (sph_maxSkippedPackets - 1).
+Proof.
+  induction sk as [|q r IH]; cbn [gc_skipped]; [rewrite zlen_nil; change sph_maxSkippedPackets with 4; lia|].
+  destruct (Z.geb_spec (zlen (q :: r)) sph_maxSkippedPackets); cbn [andb].
+  - destruct (empty || (q <? first)); [|lia]. rewrite zlen_cons in *. lia.
+  - lia.
+Qed.
+
+(** SkippedPacket forgets a number only if it lies below the lowest packet number still tracked
+    (or nothing at all is tracked); every other operation of the history leaves the list alone. *)
+Theorem skipped_retained h pn p :
+  In p (hSkipped h) ->
+  In p (hSkipped (h_skipped h pn)) \/ hPackets h = [] \/ p < hFirst h.
+Proof.
+  intros Hin. unfold h_skipped, h_seq. cbn [hSkipped hPackets hFirst].
+  destruct (gc_skipped_keeps (hSkipped h) (isnil (hPackets h)) (if isnil (hPackets h) then pn else hFirst h) p Hin) as [H|[H|H]].
+  - left. apply in_or_app. left. exact H.
+  - right. left. destruct (hPackets h); [reflexivity|discriminate].
+  - destruct (hPackets h); [right; left; reflexivity|right; right; exact H].
+Qed.
+
+Theorem skipped_recorded h pn : In pn (hSkipped (h_skipped h pn)).
+Proof. unfold h_skipped. cbn [hSkipped]. apply in_or_app. right. left. reflexivity. Qed.
+
+Theorem skipped_untouched h pn p pr :
+  hSkipped (h_sent h pn p) = hSkipped h /\ hSkipped (h_sent_probe h pn p) = hSkipped h /\
+  hSkipped (h_set_probes h pr) = hSkipped h /\
+  (forall h', fst (h_remove h pn) = h' -> hSkipped h' = hSkipped h) /\
+  (forall h', fst (h_declareLost h pn) = h' -> hSkipped h' = hSkipped h).
+Proof.
+  repeat split.
+  - intros h' <-. unfold h_remove. destruct (getIndex h pn); [|reflexivity]. destruct (nth n (hPackets h) None); [|reflexivity].
+    destruct (_ <? 0); [reflexivity|].
+    match goal with |- context [if ?c then ?a else cleanup_start ?b] => destruct c; [|destruct (cleanup_start_fields b) as [_ [E _]]] end.
+    + match goal with |- hSkipped (fst (match ?x with _ => _ end)) = _ => destruct x as [|[?|] ?] end; reflexivity.
+    + match goal with |- hSkipped (fst (match ?x with _ => _ end)) = _ => destruct x as [|[?|] ?] end; cbn [fst]; rewrite E; reflexivity.
+  - intros h' <-. unfold h_declareLost. destruct (getIndex h pn); [|reflexivity]. destruct (nth n (hPackets h) None); [|reflexivity].
+    destruct (_ <? 0); [reflexivity|]. cbn [fst]. destruct n; [|reflexivity].
+    match goal with |- hSkipped (cleanup_start ?b) = _ => destruct (cleanup_start_fields b) as [_ [E _]]; rewrite E end. reflexivity.
+Qed.
+
+(** Regression: the history that used to refute "every skipped number is rejected" (five PTO expiries skip
+    1..5 while packet 0 is still tracked, then ACK {6,1}) is now a PROTOCOL_VIOLATION and changes nothing. *)
 Definition w_orc : oracle := (112500000, 200000000, 200000000).
 Definition w_ops : list (op * oracle) :=
   [ (ODrop 1 1000000000, w_orc); (ODrop 2 1000000000, w_orc);
@@ -53,21 +113,35 @@ Definition w_ops : list (op * oracle) :=
 Definition w_ack : op := OAck 4 501001000000 0 [(6, 6); (1, 1)].
 Definition w_init : state := init false true 0 256 131072 100.
 
-Theorem ack_any_skipped_refuted :
-  exists ops pn now delay rs orc,
-    let st := run w_init ops in
-    (* pn was skipped (recorded by SkippedPacket) at some point of the history *)
-    (exists n, In pn (hSkipped (spH (sApp (run w_init (firstn n ops)))))) /\
-    (* it was never sent and is not above the largest sent number *)
-    ~ In pn (map fst (h_list (spH (sApp st)))) /\ pn <= spLargestSent (sApp st) /\
-    op_valid st (OAck sph_Enc1RTT now delay rs) = true /\ acks_pn rs pn = true /\
-    (* the ACK is accepted: no error, a 1-RTT packet was acknowledged *)
-    snd (step st (OAck sph_Enc1RTT now delay rs, orc)) = 10.
+Example ack_old_skipped_rejected :
+  let st := run w_init w_ops in
+  hSkipped (spH (sApp st)) = [1; 2; 3; 4; 5] /\
+  op_valid st w_ack = true /\
+  snd (step st (w_ack, w_orc)) = 2 /\
+  sCbs (fst (step st (w_ack, w_orc))) = sCbs st /\ sBif (fst (step st (w_ack, w_orc))) = sBif st.
+Proof. vm_compute. auto. Qed.
+
+(** What remains true of the old refutation: a skipped number BELOW every packet still tracked can be
+    forgotten (bounded memory), and an ACK that mentions it is then not detected; such an ACK cannot
+    acknowledge anything at or below that number.  Witness: skip 1..5 as above, packets 0 and 6 acknowledged
+    (nothing tracked below 7), one more PTO skip, then ACK {8, 1}. *)
+Definition w2_ops : list (op * oracle) :=
+  w_ops ++
+  [ (OAck 4 501001000000 0 [(6, 6); (0, 0)], (1125000, 3000000, 28000000));
+    (OSend 4 501002000000 (-1) [] [3] 1200 false false 0, (1125000, 3000000, 28000000));
+    (OTimeout 502000000000 0, (1125000, 3000000, 28000000));
+    (OSend 4 502000000001 (-1) [] [4] 1200 false false 0, (1125000, 3000000, 28000000)) ].
+
+Example ack_skipped_below_window_accepted :
+  let st := run w_init w2_ops in
+  (exists n, In 1 (hSkipped (spH (sApp (run w_init (firstn n w2_ops)))))) /\
+  ~ In 1 (hSkipped (spH (sApp st))) /\
+  (forall x, In x (h_list (spH (sApp st))) -> 1 < fst x) /\
+  snd (step st (OAck 4 502001000000 0 [(9, 9); (1, 1)], (1125000, 3000000, 28000000))) = 10.
 Proof.
-  exists w_ops, 1, 501001000000, 0, [(6, 6); (1, 1)], (1125000, 3000000, 28000000).
   split; [exists 4%nat; vm_compute; auto|].
-  split; [vm_compute; intros [H|[H|H]]; try discriminate; auto|].
-  split; [vm_compute; discriminate|]. split; [vm_compute; reflexivity|]. split; [vm_compute; reflexivity|].
+  split; [vm_compute; intuition discriminate|].
+  split; [vm_compute; intros x [<-|[<-|[]]]; cbn; reflexivity|].
   vm_compute. reflexivity.
 Qed.
 
